@@ -129,3 +129,29 @@ package stackitem
 //@ may-panic
 //@ requires i != nil
 //@ modifies i.value, elems(Item)
+
+// ---- Map: the element list and the key index agree (C13: HASKEY/PICKITEM/SETITEM/REMOVE/CLEARITEMS
+// look keys up through the index and read elements from the list)
+//@ prop C13
+//@ spec hcOf(it Item) seq
+//@ func hashCode
+//@ assumed
+//@ pure
+//@ ensures result == hcOf(item)
+// every element is indexed under its key's code at its own position, and the index has no other entries
+//@ spec wfMap(m *Map) bool = m != nil && m.dict != nil && len(m.dict) == len(m.value) && forall(j, 0, len(m.value), has(m.dict, hcOf(m.value[j].Key)) && m.dict[hcOf(m.value[j].Key)] == j) && forallkeys(m.dict, k, has(m.dict, k) ==> 0 <= m.dict[k] && m.dict[k] < len(m.value))
+
+//@ func (*Map).Clear
+//@ may-panic
+//@ requires wfMap(i)
+//@ modifies i.value, i.dict
+//@ ensures[empty] len(i.value) == 0 && len(i.dict) == 0 && wfMap(i)
+
+//@ func (*Map).Has
+//@ requires wfMap(i)
+//@ ensures[indexed] exists(j, 0, len(i.value), hcOf(i.value[j].Key) == hcOf(key)) ==> result
+
+//@ func (*Map).Index
+//@ requires wfMap(i)
+//@ ensures[pos] result >= 0 ==> result < len(i.value) && has(i.dict, hcOf(key)) && i.dict[hcOf(key)] == result
+//@ ensures[absent] (result < 0) == !has(i.dict, hcOf(key))
